@@ -32,11 +32,20 @@ LC(pct, base, amt, rate, q) == [pct |-> pct, base |-> base, amount |-> amt, rate
 Z2 == AOf(0, 2)
 LineDiscs == {<<>>, <<LD(P(10, 2), None, Z2)>>, <<LD(None, None, AOf(100, 2))>>, <<LD(P(55, 3), P(2000, 2), Z2), LD(None, None, AOf(5, 1))>>}
 LineChgs  == {<<>>, <<LC(P(2, 2), None, Z2, None, None)>>, <<LC(None, None, Z2, P(35, 2), None)>>, <<LC(None, None, Z2, P(125, 3), P(4, 0))>>}
-Line(qp, ds, cs, ts) == [qty |-> qp[1], price |-> qp[2], icd |-> 2, fx |-> None, discounts |-> ds, charges |-> cs, taxes |-> ts]
+Line(qp, ds, cs, ts) == [qty |-> qp[1], price |-> qp[2], icd |-> 2, fx |-> None, alt |-> None, discounts |-> ds, charges |-> cs, taxes |-> ts, subs |-> <<>>]
+SubL(qp, ds, cs) == [qty |-> qp[1], price |-> qp[2], icd |-> 2, fx |-> None, alt |-> None, discounts |-> ds, charges |-> cs]
 FullLines == {Line(qp, ds, cs, ts) : qp \in QP, ds \in LineDiscs, cs \in LineChgs, ts \in TaxSets}
 PlainLines == {Line(qp, <<>>, <<>>, ts) : qp \in QP, ts \in TaxSets}
              \cup {Line(qp, ds, cs, <<Vat21>>) : qp \in {<<AOf(3, 0), AOf(335, 3)>>}, ds \in LineDiscs, cs \in LineChgs}
 FxLine == [Line(<<AOf(3, 0), AOf(1000, 0)>>, <<>>, <<>>, <<Vat21>>) EXCEPT !.icd = 0, !.fx = P(62, 4)]
+\* an item priced in another currency with an alternative price in the document's (which wins over the exchange rate)
+AltLine == [FxLine EXCEPT !.alt = P(6205, 3)]
+\* lines whose price comes from a breakdown: sub-lines of different precisions, with adjustments, one in another currency
+BdLines == {[Line(<<AOf(2, 0), AOf(0, 2)>>, ds, <<>>, <<Vat21>>) EXCEPT !.subs = ss] :
+               ds \in {<<>>, <<LD(P(10, 2), None, Z2)>>},
+               ss \in {<<SubL(<<AOf(3, 0), AOf(335, 3)>>, <<>>, <<>>)>>,
+                        <<SubL(<<AOf(3, 0), AOf(335, 3)>>, <<LD(P(55, 3), None, Z2)>>, <<>>), SubL(<<AOf(25, 1), AOf(333333, 4)>>, <<>>, <<LC(None, None, Z2, P(35, 2), None)>>)>>,
+                        <<SubL(<<AOf(1, 0), AOf(1000, 2)>>, <<>>, <<>>), [SubL(<<AOf(3, 0), AOf(1000, 0)>>, <<>>, <<>>) EXCEPT !.icd = 0, !.fx = P(62, 4)]>>}}
 
 DA(pct, base, amt, ts) == [pct |-> pct, base |-> base, amount |-> amt, taxes |-> ts]
 DocCfgs == {
@@ -49,7 +58,8 @@ DocCfgs == {
 MkDoc(ls, cfg, cd, rr, inc) == [cd |-> cd, rr |-> rr, inc |-> inc, rounding |-> cfg.rounding, lines |-> ls,
                              discounts |-> cfg.discounts, charges |-> cfg.charges, advances |-> cfg.advances, dues |-> cfg.dues]
 OneLine == {<<l>> : l \in FullLines}
-TwoLines == {<<a, b>> : a \in PlainLines, b \in PlainLines} \cup {<<FxLine>>, <<FxLine, FxLine>>}
+TwoLines == {<<a, b>> : a \in PlainLines, b \in PlainLines} \cup {<<FxLine>>, <<FxLine, FxLine>>, <<AltLine>>, <<AltLine, FxLine>>}
+            \cup {<<l>> : l \in BdLines} \cup {<<l, FxLine>> : l \in BdLines}
 Docs == {MkDoc(ls, cfg, cd, rr, inc) : ls \in OneLine \cup TwoLines, cfg \in DocCfgs, cd \in (IF Scope = "quick" THEN {2} ELSE {0, 2, 3}),
                                     rr \in {"precise", "currency"}, inc \in {"", "VAT"}}
 
